@@ -57,7 +57,7 @@ let parse_digest d =
   let act = List.filter_map (fun e ->
       if e = "" then None else
       match String.split_on_char '@' e with
-      | [h; r] -> (match String.split_on_char ':' r with [_; f] -> Some (int_of_string h, f.[0] = '1') | _ -> None)
+      | [h; r] -> (match String.split_on_char ':' r with [j; f] -> Some (int_of_string h, int_of_string j, f.[0] = '1') | _ -> None)
       | _ -> None) (String.split_on_char ',' as_) in
   (pend, act)
 
@@ -72,6 +72,7 @@ let () =
   let dead = ref false and spec_dead = ref false and disc_dead = ref false in
   let ospec = ref ospec0 and pend_before = ref [] and srv_seen = ref [] in
   let hyp_false = ref false and reuse_seen = ref false and cd_seen = ref false in
+  let conn_seen = ref [] and spur_dead = ref false in
   let printed = Hashtbl.create 64 in
   let report sg text =
     let n = try Hashtbl.find printed sg with Not_found -> 0 in
@@ -91,7 +92,7 @@ let () =
       match toks with
       | "C" :: _variant :: kvs ->
         flush_case (); incr case_no; op_no := 0; dead := false; spec_dead := false; disc_dead := false;
-        ospec := ospec0; pend_before := []; srv_seen := []; hyp_false := false; reuse_seen := false; cd_seen := false;
+        ospec := ospec0; pend_before := []; srv_seen := []; hyp_false := false; reuse_seen := false; cd_seen := false; conn_seen := []; spur_dead := false;
         let kv k = let p = k ^ "=" in
           let e = List.find (fun s -> String.length s > String.length p && String.sub s 0 (String.length p) = p) kvs in
           int_of_string (String.sub e (String.length p) (String.length e - String.length p)) in
@@ -185,14 +186,25 @@ let () =
                else srv_seen := key :: !srv_seen
              | _ -> ());
             let (pend, act) = parse_digest impl in
-            if not !spec_dead then
-              List.iter (fun (h, conn) ->
+              List.iter (fun (h, j, conn) ->
+                  (* is_connected of a live request's two ends stays true until one of ITS ends is dropped *)
+                  if conn then (if not (List.mem (h, j) !conn_seen) then conn_seen := (h, j) :: !conn_seen)
+                  else if List.mem (h, j) !conn_seen && List.mem h pend && not !spur_dead then begin
+                    spur_dead := true; incr mm_spec;
+                    report "specspur" (Printf.sprintf "MISMATCH case=%d op=%d kind=spec what=disconnect_spurious line=[%s] spec=active-request-%d@%d-and-its-pending-response-both-alive-stay-connected impl=%s\n" !case_no !op_no line h j impl_obs)
+                  end;
                   if not !spec_dead && not !disc_dead && not (o_act_connected (List.mem h pend) conn) then
                     bad (if (not !dead) && !cands <> [] && List.for_all (fun st -> act_foreign st (n_of_int h)) !cands then "disconnect_newclient" else "disconnect") (Printf.sprintf "active-request-%d-not-connected-after-its-pending-response-was-dropped" h)) act;
             pend_before := pend
           end
         end else begin
-          let (pend, _) = parse_digest impl in pend_before := pend
+          let (pend, act) = parse_digest impl in pend_before := pend;
+          List.iter (fun (h, j, conn) ->
+              if conn then (if not (List.mem (h, j) !conn_seen) then conn_seen := (h, j) :: !conn_seen)
+              else if List.mem (h, j) !conn_seen && List.mem h pend && not !spur_dead then begin
+                spur_dead := true; incr mm_spec;
+                report "specspur" (Printf.sprintf "MISMATCH case=%d op=%d kind=spec what=disconnect_spurious line=[%s] spec=active-request-%d@%d-and-its-pending-response-both-alive-stay-connected impl=%s\n" !case_no !op_no line h j impl_obs)
+              end) act
         end
       | [] -> ()
       | "PROBE" :: _ -> ()
